@@ -131,3 +131,14 @@ Proof.
     destruct (determinism_all txt p p' md pick1 pick2 f1 f2 t1 Hp Ha Hf (all_src_parsed txt p p' Hp Ha) Hnp Hrun Hle)
       as (t2 & H2 & _ & Hperm). eauto.
 Qed.
+
+(* non-vacuity: two-name declarations (the second one from corpus/run/f18_multiprovider_call.grits) *)
+Definition example_two_text : string :=
+"prc[a, b] : 1 = print made; close self
+prc[c] : 1 = wait a; wait b; print done; close self".
+Definition example_two_call_text : string :=
+"type N = 1 -* 1
+let g(w : N) : 1 = u : 1 <- new close self; r : 1 <- new send w<u, self>; wait r; close self
+prc[z] : N = <x,y> <- recv self; wait x; close self
+prc[a, b] : 1 = g(z)
+prc[c] : 1 = wait a; wait b; print done; close self".
